@@ -1,7 +1,7 @@
 """C16 configuration for ./check."""
 CFG = {
-    "modules": ["VaxisModel.Props.C16", "VaxisModel.Props.C16E2E", "VaxisModel.Witness.F116", "VaxisModel.Props.C16Facts"],
-    "extractors": ["C16"],
+    "modules": ["VaxisModel.Props.C16", "VaxisModel.Props.C16E2E", "VaxisModel.Witness.F116", "VaxisModel.Props.C16Facts", "VaxisModel.Props.C16Draw"],
+    "extractors": ["C11", "C14", "C16"],
     "drivers": ["C16"],
     "trivial_prefix": ("L|L|L|L|L|L|L", "bad-op"),
     "design_ref": "DESIGN.md §5 C16; notes/C16.md",
